@@ -191,12 +191,63 @@ Definition obj_cmp (a b : tval) : option comparison :=
        | c => Some c
        end.
 
-(* impl PartialOrd for Value, with try_cast_match inlined: a real on either side -> both as f64
-   (f64::partial_cmp); else an integer on either side -> both as i64; else the pair is left
-   alone: two objects -> CaoLangObject::partial_cmp, anything else (Nil/Nil, Nil/object) -> None.
-   (The `r as i64` cast of TryFrom<Value> for i64 is unreachable from here: a real always takes
-   the first branch.) *)
+Definition opp_oc (c : option comparison) : option comparison :=
+  match c with Some c => Some (CompOpp c) | None => None end.
+
+(* r.trunc() as an integer, and the sign of r - r.trunc() (Lt negative, Eq zero, Gt positive),
+   of a finite or zero float *)
+Definition sf_trunc_frac (x : spec_float) : Z * comparison :=
+  match x with
+  | S754_finite s m e =>
+      match e with
+      | Z0 => (if s then Zneg m else Zpos m, Eq)
+      | Zpos p => ((if s then Zneg m else Zpos m) * 2 ^ Zpos p, Eq)%Z
+      | Zneg p =>
+          let q := (Zpos m / 2 ^ Zpos p)%Z in
+          let r := (Zpos m mod 2 ^ Zpos p)%Z in
+          (if s then (- q)%Z else q, if Z.eqb r 0 then Eq else if s then Lt else Gt)
+      end
+  | _ => (0%Z, Eq)
+  end.
+
+Definition two63 : Z := 9223372036854775808%Z.
+
+(* fn cmp_int_real(i, r) of value.rs (repair d3f91fb of finding A-30): NaN -> None;
+   r >= 2^63 -> Less; r < -2^63 -> Greater; otherwise i.cmp(r.trunc() as i64) - the cast is exact
+   in that range - and a tie is decided by the sign of the fractional part. *)
+Definition cmp_int_real (i : Z) (x : spec_float) : option comparison :=
+  match x with
+  | S754_nan => None
+  | S754_infinity s => Some (if s then Gt else Lt)
+  | _ =>
+      let '(w, fs) := sf_trunc_frac x in
+      if (two63 <=? w)%Z then Some Lt
+      else if (w <? - two63)%Z || ((w =? - two63)%Z && match fs with Lt => true | _ => false end)
+      then Some Gt
+      else Some match Z.compare i w with
+                | Eq => CompOpp fs        (* frac > 0: i < r;  frac < 0: i > r *)
+                | c => c
+                end
+  end.
+
+(* impl PartialOrd for Value.  A real on exactly one side: the other side as i64 (TryFrom: an
+   integer itself, nil 0, an object its length) is compared with it exactly by cmp_int_real.
+   Otherwise try_cast_match, inlined: two reals -> f64::partial_cmp; an integer on either side ->
+   both as i64; two objects -> CaoLangObject::partial_cmp; anything else (Nil/Nil, Nil/object)
+   -> None.  ([tcmp_legacy] below is the code before d3f91fb.) *)
 Definition tcmp (a b : tval) : option comparison :=
+  match a, b with
+  | TReal f, TReal g => SFcompare (sf f) (sf g)
+  | TReal f, _ => opp_oc (cmp_int_real (to_i64 b) (sf f))
+  | _, TReal g => cmp_int_real (to_i64 a) (sf g)
+  | _, _ =>
+      if is_int a || is_int b then Some (Z.compare (to_i64 a) (to_i64 b))
+      else if is_obj a && is_obj b then obj_cmp a b
+      else None
+  end.
+
+(* before d3f91fb: a real on either side -> both as f64, the integer rounded (finding A-30) *)
+Definition tcmp_legacy (a b : tval) : option comparison :=
   if is_real a || is_real b then SFcompare (to_sf a) (to_sf b)
   else if is_int a || is_int b then Some (Z.compare (to_i64 a) (to_i64 b))
   else if is_obj a && is_obj b then obj_cmp a b
@@ -242,8 +293,9 @@ Definition no_nan (a : tval) : bool := tall node_not_nan a.
 Definition no_fn (a : tval) : bool := tall node_not_fn a.
 Definition no_zero_real (a : tval) : bool := tall node_not_zero a.
 
-(* exact comparison of an integer with a spec_float, by integer arithmetic only (the
-   specification oracle of the checker for mixed comparisons) *)
+(* exact comparison of an integer with a spec_float, by cross-multiplication in Z (the
+   specification oracle of the checker for mixed comparisons; [cmp_int_real] is proved equal to
+   it on i64 in ValueProofs) *)
 Definition Z_cmp_sf (i : Z) (x : spec_float) : option comparison :=
   match x with
   | S754_nan => None
